@@ -41,6 +41,12 @@ CHECKS = {
  "C13": dict(cat="exploration", technique="names observed through jit.compile_* (aborted before the compiler) in fresh processes: stability under hash seed/history/creation order; near-miss request pairs with kernel-text digests; name monitor",
    text="Module and object names of requests (forms, several forms, expressions) are computed by the real JIT entry points in fresh processes under varied hash seeds and histories and must be identical; near-miss request pairs (one literal/index/coefficient/degree/power, evaluation points at 1e-10/1e-6/dtype/order/count/inside a >1000-element array, scalar type, each option, compiler flags, form order) must get different module names whenever their generated kernels or options differ; object names must be distinct valid identifiers.",
    note="Two genuine defects found and fixed (repr(points) truncation; duplicate expression names). Separation can only be observed for generated pairs.", ref="3/C13"),
+ "C14": dict(cat="exploration", technique="history monitor: per-process audit-hook event logs (CLOCK_MONOTONIC) with injected delays at the protocol's own file-system events, merged and checked offline against the protocol invariants; every process checks its kernels against the oracle",
+   text="Histories of 2..16 fresh processes released by a barrier on one cache directory with seeded delay plans and staggered arrivals, three request kinds and a second wave; the offline checker decides single lock holder, single compiler launch, no load before/without the marker or of a non-final shared object, correct kernels everywhere, no failure, reuse without recompiling. Evidence lists the number of distinct interleavings observed.",
+   note="Granularity is the audit-event level; local file system; no liveness claim (bounded by timeout polls, watchdog => inconclusive).", ref="3/C14"),
+ "C15": dict(cat="fault_enumeration", technique="fault injection at the protocol's audit events (SIGKILL before event k, timed kills after compiler/linker launch, CC-wrapper transient failures, code-generation exception) + process-state snapshots + later-request sequences checked against the oracle",
+   text="Every failure kind is followed by requests in the same and another process (must raise, release the lock, leave root-logger handlers/stdout/cwd untouched, and rebuild correctly afterwards); every kill point of the builder is followed by later-request sequences that must return oracle-correct kernels loaded with the marker present, or raise.",
+   note="Process death only. One genuine defect found and fixed (handlers not restored on failure).", ref="3/C15"),
 }
 NA_REASON = "check not built yet in this round (runtime monitoring applies; see DESIGN.md section 3)"
 
